@@ -6,3 +6,4 @@ CONSTANTS
 INVARIANT Pacing
 POSTCONDITION Accepted
 CHECK_DEADLOCK FALSE
+PROPERTY RefinesPacing
